@@ -20,6 +20,9 @@ Proof. vm_compute. reflexivity. Qed.
 (* exactly tunnel and handleMITM defer the completion report (they report it themselves) *)
 Lemma ob_deferred_trace_callers : deferred_trace_callers = [b "handleMITM"; b "tunnel"].
 Proof. vm_compute. reflexivity. Qed.
+(* writeResponse: the header-only case precedes every case that calls res.Write (a 101 carries a Body that panics when read) *)
+Lemma ob_header_only_case_before_body_writers : header_only_case_before_body_writers = true.
+Proof. vm_compute. reflexivity. Qed.
 Lemma ob_flags : table_flags = good_flags.
 Proof. unfold table_flags. rewrite ob_trace_skip_only_when_deferred, ob_conn_err_rebinds_request, ob_upgrade_clears_close. reflexivity. Qed.
 (* forwarder's trace hooks skip events without a request / response *)
